@@ -475,8 +475,14 @@ func (s *Server) handleSessionMessage(addr *net.UDPAddr, msg []byte) error {
 		return nil
 	}
 
+	// A message too short to hold a counter and a tag cannot authenticate.
+	plaintextLen := PlaintextLen(len(msg))
+	if plaintextLen < 0 {
+		return ErrBufUnderflow
+	}
+
 	// TODO(dadrian): Can we avoid this allocation?
-	plaintext := make([]byte, PlaintextLen(len(msg)))
+	plaintext := make([]byte, plaintextLen)
 	_, mt, err := ss.readPacketLocked(plaintext, msg, ss.readKey)
 	if err != nil {
 		return err
